@@ -39,6 +39,8 @@ FN_LEAVES = [
      '__CPROVER_requires($0 != 0)\n__CPROVER_ensures((unsigned long)$ret == g_fn_host)\n__CPROVER_assigns()'),
     ('vsbx.impl_get_sandboxed_pointer<function pointer>(A_backend)', _fnp('impl_get_sandboxed_pointer'),
      '__CPROVER_requires($0 != 0)\n__CPROVER_ensures($ret == g_fn_repr)\n__CPROVER_assigns()'),
+    ('vsbx.impl_get_unsandboxed_pointer<function pointer>(A_backend)', _fnp('impl_get_unsandboxed_pointer'),
+     '__CPROVER_requires($0 != 0)\n__CPROVER_ensures((unsigned long)$ret == g_fn_host)\n__CPROVER_assigns()'),
 ]
 
 
@@ -232,6 +234,37 @@ def byvalue_inst(S, tier):
                 solvers=('cadical', 'z3') if S == 'VFn' else ('minisat',))   # VFn: minisat does not finish on the function-pointer fields (measured); cadical and z3 do
 
 
+def result_inst(S, tier):
+    """a struct RETURNED by value from a sandbox function: INTERNAL_invoke_with_func_ptr<S()> converts the guest image handed back by
+    the backend field by field relative to the sandbox that was called (context form; never relative to where the temporary lives)"""
+    TT = cs('rlbox::tainted<rlbox::%s, rlbox::vsbx>' % S)
+    SBX = cs('rlbox::Sbx_vlib_%s<rlbox::vsbx>' % S)
+    SL = '$this->base0.slot'
+    same = leaves_of([], S, lambda p, k, j: '%s == %s' % (sbx_expr('__CPROVER_return_value', p, j), sbx_expr('g_guest', p, j)) if k not in ('double', 'float') else '1')
+    stub = ('backend impl_invoke_with_func_ptr(stub returning the guest image)', lambda fn, rec: fn.get('name') == 'impl_invoke_with_func_ptr',
+            '__CPROVER_ensures(g_gcalls == __CPROVER_old(g_gcalls) + 1 && %s)\n__CPROVER_assigns(g_gcalls)' % ' && '.join(x.replace('__CPROVER_return_value', '$ret') for x in same if x != '1'))
+    cl = sb_req('$this') + [('fresh', '__CPROVER_requires(g_gcalls == 0)')]
+
+    def post(p, k, j):
+        src, dst = sbx_expr('g_guest', p, j), '$ret' + ''.join('.%s' % x for x in p) + '.data' + ('._M_elems[%d]' % j if j is not None else '')
+        tag = 'field_%s%s' % ('_'.join(p), '' if j is None else '_%d' % j)
+        if k == 'ptr':
+            return (tag, '__CPROVER_ensures((%s == 0 ==> (uintptr_t)%s == 0) && ((%s != 0 && (uintptr_t)%s < V_SIZE[%s]) ==> (uintptr_t)%s == V_BASE[%s] + (uintptr_t)%s))' % (src, dst, src, src, SL, dst, SL, src))
+        if k == 'fnptr':
+            return (tag, FN_TO_APP % (src, dst, src, dst))
+        if k in ('double', 'float'):
+            return (tag, '__CPROVER_ensures(1)')
+        return (tag, '__CPROVER_ensures(%s)' % eqv(dst, src, k))
+    cl += leaves_of([], S, post)
+    cl.append(('called_once', '__CPROVER_ensures(g_gcalls == 1)'))
+    cl.append(('frame', '__CPROVER_assigns(g_gcalls)'))
+    h = REGIONS + FN_H + SB_DECL + '  g_noabort = 0; g_gcalls = 0; uintptr_t in_fn;\n  struct %s r = $ROOT(&sb, "f", (void *)in_fn);\n' % TT
+    return Inst('c08_struct_result_of_a_sandbox_call_%s' % S, 'rlbox_sandbox<vsbx>& s, void* fp', 's.INTERNAL_invoke_with_func_ptr<%s()>("f", fp);' % S, cl, h,
+                leaves=['dynamic_check', stub] + FN_LEAVES + ['vsbx.impl_get_unsandboxed_pointer', 'vsbx.impl_get_unsandboxed_pointer_no_ctx', 'find_sandbox_from_example'],
+                prop=PROP, root_name='INTERNAL_invoke_with_func_ptr', tier=tier, pre=PRE_GHOST + FN_GHOST + spec_decls(S) + ' unsigned g_gcalls; struct %s g_guest;\n' % SBX,
+                timeout=300, object_bits=12, note='by-value struct result: the backend hands back the guest image; converted with the called sandbox as context')
+
+
 def units(tier):
     fam = ['VOuter', 'VInner', 'VMisc', 'VFn'] if tier == 'quick' else ['VOuter', 'VInner', 'VMisc', 'VFn', 'VRev']
     insts = []
@@ -239,6 +272,7 @@ def units(tier):
         insts += [store_inst(S, tier), load_inst(S, tier), byvalue_inst(S, tier)]
         if S != 'VInner' or tier != 'quick':
             insts.append(unverified_inst(S, tier))
+    insts += [result_inst('VOuter', tier), result_inst('VFn', tier)]
     return [Unit('C08_structs', insts, includes=('rlbox.hpp', 'vsbx.hpp', 'vstructs.hpp'))]
 
 
